@@ -32,7 +32,7 @@ ANCHORS = ["model/model.py:Model.__init__", "model/model.py:Model.pop_nodes_and_
            "model/model.py:save_model", "model/nodes.py:Node._set_model", "model/nodes.py:Node.__getstate__"]
 ASSUMPTIONS = ["Var.role, Var.info, Var.auto_transform and Node.monitor are not structural (they are unguarded by design)"]
 WORKERS = 16
-TIMEOUT = {"quick": 900, "thorough": 3600}
+TIMEOUT = {"quick": 1500, "thorough": 10800}
 
 
 # ------------------------------------------------------------------ snapshots
